@@ -7,6 +7,7 @@ package main
 // reached by the query" can be enumerated.
 
 import (
+	"sync/atomic"
 	"context"
 	"errors"
 	"fmt"
@@ -380,6 +381,7 @@ func oracleCancel(seed int64, id int) CaseResult {
 		return res
 	}
 	done := make(chan *promql.Result, 1)
+	ev0 := atomic.LoadInt64(&storeEvents)
 	go func() { done <- q.Exec(ctx) }()
 	switch fc.Kind {
 	case "block":
@@ -393,7 +395,11 @@ func oracleCancel(seed int64, id int) CaseResult {
 		q.Cancel() // Cancel() racing with Exec
 	case "blockcancel":
 		// the storage blocks (possibly while the series are still being loaded) until the
-		// query's own Cancel() - not the caller's context - stops it
+		// query's own Cancel() - not the caller's context - stops it. Cancel() before Exec has begun
+		// is a no-op (as in the reference engine), so wait for Exec's first storage callback.
+		for i := 0; i < 4000 && atomic.LoadInt64(&storeEvents) == ev0; i++ {
+			time.Sleep(500 * time.Microsecond)
+		}
 		time.Sleep(time.Duration(1+r.Intn(20)) * time.Millisecond)
 		q.Cancel()
 	}
